@@ -546,7 +546,7 @@ package meta
 
 // strategy invariants needed by the verified helpers: the DFA strategy has a DFA; the anchored-literal strategy has its
 // info and (ASSUMED, argument in DESIGN S.2/C19) alMatch over it is the reference
-//@ spec func stratOK(e *Engine) bool = (e.strategy == UseDFA ==> e.dfa != nil) && (e.strategy == UseAnchoredLiteral ==> alInfoOK(e.anchoredLiteralInfo) && (forall h []byte :: alMatch(h, e.anchoredLiteralInfo) == refFound(e, false, h, 0))) && (e.reverseSuffixSearcher != nil ==> rsOK(e.reverseSuffixSearcher) && (forall h []byte :: rsRef(e.reverseSuffixSearcher, h) == refFound(e, false, h, 0))) && (e.reverseSuffixSetSearcher != nil ==> rssOK(e.reverseSuffixSetSearcher) && (forall h []byte :: rssRef(e.reverseSuffixSetSearcher, h) == refFound(e, false, h, 0))) && (e.reverseInnerSearcher != nil ==> riOK(e.reverseInnerSearcher) && (forall h []byte :: riRef(e.reverseInnerSearcher, h) == refFound(e, false, h, 0)))
+//@ spec func stratOK(e *Engine) bool = (e.strategy == UseDFA ==> e.dfa != nil) && (e.strategy == UseAnchoredLiteral ==> alInfoOK(e.anchoredLiteralInfo) && (forall h []byte :: alMatch(h, e.anchoredLiteralInfo) == refFound(e, false, h, 0))) && (e.reverseSuffixSearcher != nil ==> rsOK(e.reverseSuffixSearcher) && (forall h []byte :: rsRef(e.reverseSuffixSearcher, h) == refFound(e, false, h, 0))) && (e.reverseSuffixSetSearcher != nil ==> rssOK(e.reverseSuffixSetSearcher) && (forall h []byte :: rssRef(e.reverseSuffixSetSearcher, h) == refFound(e, false, h, 0))) && (e.reverseInnerSearcher != nil ==> riOK(e.reverseInnerSearcher) && (forall h []byte :: riRef(e.reverseInnerSearcher, h) == refFound(e, false, h, 0))) && (e.multilineReverseSuffixSearcher != nil ==> mlOK(e.multilineReverseSuffixSearcher) && (forall h []byte :: mlRef(e.multilineReverseSuffixSearcher, h) == refFound(e, false, h, 0)))
 //@ trusted func (*Engine).isMatchReverseAnchored
 //@   requires leafOK(e)
 //@   modifies @searchState
@@ -593,6 +593,32 @@ package meta
 //@   requires leafOK(e) && stratOK(e)
 //@   modifies @searchState
 //@   ensures result == refFound(e, e.longest, haystack, 0)
+// MULTILINE reverse-suffix boolean search ((?m)^ patterns, searched line by line): the candidate's line start is where
+// the anchored forward DFA is asked; a line whose start lacks the prefix literal is skipped as a whole
+//@ spec func lineStartIs(h []byte, p int, l int) bool = 0 <= l && l <= p && (l == 0 || h[l-1] == 10) && (forall j :: l <= j && j < p ==> h[j] != 10)
+//@ spec func hasPfx(h []byte, l int, pfx []byte) bool = l + len(pfx) <= len(h) && (forall k :: 0 <= k && k < len(pfx) ==> h[l+k] == pfx[k])
+//@ func findLineStart
+//@   props C01 C07
+//@   requires pos <= len(haystack)
+//@   ensures pos <= 0 ==> result == 0
+//@   ensures pos >= 0 ==> lineStartIs(haystack, pos, result)
+//@ func (*MultilineReverseSuffixSearcher).verifyPrefix
+//@   props C01 C07
+//@   requires s != nil && 0 <= at && at <= len(haystack)
+//@   ensures result == (len(s.prefixBytes) > 0 && hasPfx(haystack, at, s.prefixBytes))
+//@ uninterpreted spec func mlRef(s *MultilineReverseSuffixSearcher, h []byte) bool
+//@ uninterpreted spec func mlCand(s *MultilineReverseSuffixSearcher, h []byte) int
+//@ uninterpreted spec func mlLine(s *MultilineReverseSuffixSearcher, h []byte) int
+//@ spec func mlOK(s *MultilineReverseSuffixSearcher) bool = s != nil && s.forwardDFA != nil && s.prefilter != nil && (forall h []byte :: mlRef(s, h) ==> 0 <= mlCand(s, h) && pfOcc(s.prefilter, h, mlCand(s, h)) && lineStartIs(h, mlCand(s, h), mlLine(s, h)) && ancAcc(s.forwardDFA, h, mlLine(s, h)) && (len(s.prefixBytes) > 0 ==> hasPfx(h, mlLine(s, h), s.prefixBytes))) && (forall h []byte, l int :: 0 <= l && l <= len(h) && ancAcc(s.forwardDFA, h, l) ==> mlRef(s, h)) && (forall h []byte, i int :: pfOcc(s.prefilter, h, i) ==> 0 <= i && i < len(h))
+//@ func (*MultilineReverseSuffixSearcher).IsMatch
+//@   props C01 C05
+//@   opt safety=off
+//@   requires mlOK(s) && len(haystack) <= 140737488355328
+//@   modifies @searchState
+//@   ensures result == mlRef(s, haystack)
+//@   loop 1: invariant 0 <= pos && mlOK(s)
+//@   loop 1: invariant mlRef(s, haystack) ==> pos <= mlCand(s, haystack)
+
 // reverse-INNER variant: a candidate is an occurrence of the inner literal; it yields a match when the prefix half
 // accepts backwards from it (or is trivially satisfied at offset 0) and the suffix half accepts forwards from it
 //@ uninterpreted spec func riRef(s *ReverseInnerSearcher, h []byte) bool
@@ -613,8 +639,10 @@ package meta
 //@   requires leafOK(e) && stratOK(e)
 //@   modifies @searchState
 //@   ensures result == refFound(e, e.longest, haystack, 0)
-//@ trusted func (*Engine).isMatchMultilineReverseSuffix
-//@   requires leafOK(e)
+//@ func (*Engine).isMatchMultilineReverseSuffix
+//@   props C01
+//@   opt safety=off
+//@   requires leafOK(e) && stratOK(e)
 //@   modifies @searchState
 //@   ensures result == refFound(e, e.longest, haystack, 0)
 // checked: every callee precondition (the ASCII gate of the ASCII-only backtracker among them); the answer itself
